@@ -10,7 +10,7 @@ PROP = dict(
                "reflect.StructOf-generated structs through setec.NewStore(Structs) and ParseFields+Apply against the model in the kernel"),
     level_text=("Machine-checked theorems about the model of client/setec/fields.go, for every struct shape (fields of every kind, tagged or not, structs embedded by "
                 "value with shadowed/ambiguous promoted fields), prefix, store state satisfying the store invariant, service and decoder behaviour: the requested names "
-                "are exactly path.Join(prefix, tag name) of the tagged visible fields (prefix/name on clean inputs, the bare name without prefix), nothing else is "
+                "are exactly path.Join(prefix, tag name) of the tagged visible fields for ALL prefixes and names (path.Clean/Join modelled by a byte-level transcription of path.go proved equal to a segment form; result idempotent, no empty or '.' element, '..' only at the front of a relative result; prefix/name on clean inputs), the i-th name Secrets() returns is the name Apply looks up for the i-th field, nothing else is "
                 "requested and every unknown one is; each field receives the current value of exactly its own name (fresh buffer for []byte, text, handle of this store "
                 "bound to that name, UnmarshalBinary called with exactly the bytes, json.Unmarshal of the bytes); untagged and invisible fields are untouched; a []byte "
                 "field never holds a store buffer, so overwriting it cannot change what any store state serves; non-pointer/non-struct arguments (incl. the untyped nil and nil struct pointers of any shape), empty names, unsupported "
@@ -28,11 +28,11 @@ PROP = dict(
           "structs embedded by value with colliding promoted names; tags name / name,json / other verbs / empty names; 70% of shapes forced valid; argument: pointer 86%, struct by value 4%, non-struct 4%, untyped nil 2%, nil pointer to the struct 4%), clean prefixes (30% empty, "
           "else 1-3 segments) and names, random values incl. empty, non-UTF-8, valid and invalid JSON and values the unmarshaler refuses; 30% through NewStore(Structs), 25% declare-via-Secrets() "
           "(tag names deliberately unsorted, 40% with a name used twice, the returned slice sorted/reversed/overwritten/cleared/rotated before Apply), 45% "
-          "ParseFields+Apply on a store with a random declared subset, AllowLookup on/off, 12% of names missing at the service; plus path.Join pairs; one case = one run; "
+          "ParseFields+Apply on a store with a random declared subset; a quarter of the cases with unclean prefixes/tag names (trailing and doubled slashes, '.', '..', rooted); plus 187 exhaustive path.Join rows (136672 pairs; 770k thorough), AllowLookup on/off, 12% of names missing at the service; plus path.Join pairs; one case = one run; "
           "non-trivial if the argument is a struct pointer with at least two tagged leaf fields and the run got as far as Apply; distinct by input"),
     explain=("the names requested or returned by Secrets(), the error class/number of joined errors, a field's content, a handle's binding, an untagged field, or the store's bytes after a []byte field "
              "was overwritten differ from the model of fields.go that provably satisfies the property"),
     assumptions=["encoding/json's verdict on (field type, bytes) and the unmarshaler's verdict on bytes are inputs of the model (recorded per case)",
-                 "clean slash-separated prefixes and names (the property's domain); path_join2 itself is compared with Go's path.Join on unclean strings too",
+                 "tag names are non-empty (the code rejects empty ones); in generated struct cases they contain no comma, quote or control byte (struct-tag syntax); prefixes and names are otherwise arbitrary, clean or not (path.Join is compared exhaustively over a 5-letter alphabet up to total length 6/7 and on random longer strings)",
                  "the store invariant Inv holds for the store handed to Apply (preserved by all locked steps: StoreInv.v)"],
 )
